@@ -204,15 +204,16 @@ def wire_exc(falcon, ex):
 def gen_writes(rng):
     return {'status': rnd_opt(rng, [201, 202, 404, 203], 0.7), 'text': rnd_opt(rng, TEXTS, 0.6),
             'data': rnd_opt(rng, [b'raw', b'\x00\xff'], 0.7), 'media': rnd_opt(rng, [0], 0.7),
-            'headers': rng.choice([[], [], [['X-App', 'a']], [['Vary', 'Cookie']], [['X-App', 'b'], ['x-app', 'c']]])}
+            'headers': rng.choice([[], [], [['X-App', 'a']], [['Vary', 'Cookie']], [['X-App', 'b'], ['x-app', 'c']]]),
+            'render': False}
 
 
 def wire_writes(w):
     o = lambda x: [] if x is None else [x]
-    return [o(w['status']), o(w['text']), o(w['data']), o(w['media']), w['headers']]
+    return [o(w['status']), o(w['text']), o(w['data']), o(w['media']), w['headers'], int(bool(w.get('render')))]
 
 
-MEDIA_OBJ = {0: {'ok': 1}}
+MEDIA_OBJ = {0: {'ok': 1}, 2: {'handled': 'by the error handler'}}
 
 
 def apply_writes(resp, w):
@@ -264,6 +265,8 @@ def build_scenario(rng, falcon):
     for n in range(nh):
         end = rng.choice(['return', 'return', 'error', 'status', 'other'])
         sc = {'writes': gen_writes(rng), 'end': end}
+        if sc['writes']['media'] is not None:
+            sc['writes']['media'] = 2      # distinguishable from the pre-exception payload
         if end != 'return':
             # application media next to a negotiated error content type may not be renderable
             sc['writes']['media'] = None
@@ -295,7 +298,7 @@ def build_scenario(rng, falcon):
         if ex is None:
             ex = ValueError('x')
     return {'classes': classes, 'hist': hist, 'scripts': scripts, 'site': site, 'ex': ex,
-            'writes': gen_writes(rng), 'accept': rng.choice(ACCEPTS) if rng.random() < 0.35 else gen_accept(rng),
+            'writes': dict(gen_writes(rng), render=(site != 'render' and rng.random() < 0.35)), 'accept': rng.choice(ACCEPTS) if rng.random() < 0.35 else gen_accept(rng),
             'xml': rng.random() < 0.7,
             'handlers': rng.choice(['default', 'default', 'xtest', 'jsononly']),
             'render_media': rng.choice([1, 1, 2]) if site == 'render' else None}
@@ -353,45 +356,71 @@ def run_scenario(falcon, testing, sc, asgi):
             resp.media = object() if sc['render_media'] == 1 else {'ok': 1}
             if sc['render_media'] == 2:
                 resp.content_type = 'application/x-unknown'
+        # an early resp.render_body() (a middleware / the responder peeking at the body)
+        wrote = (here == site and site != 'process_response') or \
+                (here == 'responder' and site in ('none', 'process_response'))
+        return bool(w.get('render')) and wrote
+
+    def fin(here):
         if here == site:
             raise ex
 
     if asgi:
         class MW:
             async def process_request(self, req, resp):
-                act('process_request', resp)
+                if act('process_request', resp):
+                    await resp.render_body()
+                fin('process_request')
 
             async def process_resource(self, req, resp, resource, params):
-                act('process_resource', resp)
+                if act('process_resource', resp):
+                    await resp.render_body()
+                fin('process_resource')
 
             async def process_response(self, req, resp, resource, req_succeeded):
-                act('process_response', resp)
+                if act('process_response', resp):
+                    await resp.render_body()
+                fin('process_response')
 
         async def hook(req, resp, resource, params):
-            act('before_hook', resp)
+            if act('before_hook', resp):
+                await resp.render_body()
+            fin('before_hook')
 
         class Res:
             @falcon.before(hook)
             async def on_get(self, req, resp):
-                act('responder', resp)
+                if act('responder', resp):
+                    await resp.render_body()
+                fin('responder')
     else:
         class MW:
             def process_request(self, req, resp):
-                act('process_request', resp)
+                if act('process_request', resp):
+                    resp.render_body()
+                fin('process_request')
 
             def process_resource(self, req, resp, resource, params):
-                act('process_resource', resp)
+                if act('process_resource', resp):
+                    resp.render_body()
+                fin('process_resource')
 
             def process_response(self, req, resp, resource, req_succeeded):
-                act('process_response', resp)
+                if act('process_response', resp):
+                    resp.render_body()
+                fin('process_response')
 
         def hook(req, resp, resource, params):
-            act('before_hook', resp)
+            if act('before_hook', resp):
+                resp.render_body()
+            fin('before_hook')
 
         class Res:
             @falcon.before(hook)
             def on_get(self, req, resp):
-                act('responder', resp)
+                if act('responder', resp):
+                    resp.render_body()
+                fin('responder')
 
     App = falcon.asgi.App if asgi else falcon.App
     app = App(middleware=[MW()])
